@@ -116,6 +116,14 @@ def check_threading(A, p):
     cur = data
     for e in tbl.residual_calls(p):
         c = e["callee"]
+        if c and e["name"] == "split_first_chunk" and "<impl [T]>" in (e["key"] or "") and len(e["args"]) == 1:
+            # the std spelling of "take N": reads from its receiver, the rest is field 1 of the Some payload
+            if norm(e["args"][0]) != norm(cur):
+                return "split_first_chunk reads from %s, not from where the previous read stopped (%s)" % (sym.show(norm(e["args"][0]))[:80], sym.show(norm(cur))[:80])
+            if p.tagfacts.get(("tag", e["result"])) == 0:
+                return None
+            cur = ("getf", ("someval", e["result"]), "1")
+            continue
         if not c or c["krate"] != "postcard_dyn":
             continue
         nm = e["name"]
